@@ -6,8 +6,11 @@
      result = (kind fed)   kind: 0 Ok, 1 EOpen, 2 ESpawn, 3 ECommand, 4 EClose, 9 out of fuel
    kind 1802: selection.  case = (is_stdin pre_is_some globs_empty glob_is_ignore search_zip has_command)
      result = strategy: 0 stdin 1 preprocess 2 decompress 3 path
-   kind 1803: close_is_error on (stdout_open wait_success eof stderr_is_empty) *)
-From RG Require Import Base.Bytes Base.Val Model.CliTypes Gen.DecisionsCli Model.Process.
+   kind 1803: close_is_error on (stdout_open wait_success eof stderr_is_empty)
+   kind 1804: flag state machine.  case = list of events: (0 CMD) --pre CMD | (1) --no-pre | (2) -z | (3) --no-search-zip
+     result = (model_pre model_zip spec_pre spec_zip); pre = () | (CMD) *)
+From Coq Require Import List.
+From RG Require Import Base.Bytes Base.Val Model.CliTypes Gen.DecisionsCli Model.Process Model.PreZipFlags Model.PreZipGen Spec.PreZipSpec.
 
 Definition bc_wants (want : nat) (_ : nat) : nat := want.
 Definition bc_step (limit : option nat) (n : nat) (b : bytes) : nat * bool :=
@@ -36,10 +39,24 @@ Definition run_selection (v : val) : val :=
 Definition run_close (v : val) : val :=
   of_bool (close_is_error (as_bool (fld 0 v)) (as_bool (fld 1 v)) (as_bool (fld 2 v)) (as_bool (fld 3 v))).
 
+Definition dec_event (v : val) : pz_event :=
+  match as_N (fld 0 v) with
+  | 0%N => EPre (as_bytes (fld 1 v))
+  | 1%N => ENoPre
+  | 2%N => EZip
+  | _ => ENoZip
+  end.
+
+Definition run_flags (v : val) : val :=
+  let l := map dec_event (as_list v) in
+  let s := gen_final_state l in       (* the rules regenerated from defs.rs *)
+  VL [ of_option of_bytes (pz_pre s); of_bool (pz_zip s); of_option of_bytes (spec_pre l); of_bool (spec_zip l) ].
+
 Definition entry (k : N) (v : val) : option val :=
   match k with
   | 1801%N => Some (run_child v)
   | 1802%N => Some (run_selection v)
   | 1803%N => Some (run_close v)
+  | 1804%N => Some (run_flags v)
   | _ => None
   end.
